@@ -424,6 +424,15 @@ def all_cutsets(nb):
 
 
 def check_case(case, ctx):
+    try:
+        return _check_case(case, ctx)
+    finally:
+        if ctx.tier == "replay":        # the replay path of the driver does not remove the scratch directory
+            os.chdir(lib.VERIF)
+            shutil.rmtree(ctx.scratch, ignore_errors=True)
+
+
+def _check_case(case, ctx):
     sd = prepare_dir(ctx, case["kind"] == "ex")
     for f in glob.glob(os.path.join(sd, "piece_*.pqi")):
         os.unlink(f)
